@@ -77,10 +77,16 @@ func (e *Exec) callsiteChecks(st *State, fn *types.Func, recv *Val, args []Val, 
 		return
 	}
 	fc := e.frames[0].contract
-	if fc == nil || len(fc.Sites) == 0 {
+	if fc == nil {
 		return
 	}
 	pkgPath, key := contractKey(fn)
+	// ghost flags for called("callee") in this contract
+	for _, tracked := range fc.trackedCallees() {
+		if tracked == key || tracked == shortName(pkgPath)+"."+key {
+			st.ghosts["called:"+tracked] = Val{T: True}
+		}
+	}
 	for _, c := range fc.Sites {
 		if c.LoopKey != key && c.LoopKey != shortName(pkgPath)+"."+key {
 			continue
